@@ -282,6 +282,27 @@ func genSeqScenario(r *verifrt.Rand, i int) *seqScenario {
 	if nruns > 1 && r.Intn(2) == 0 {
 		s.Grow[1+r.Intn(nruns-1)] = r.Intn(nf)
 	}
+	if i%8 == 2 {
+		// an approved program's file is still active at the first run (same
+		// process), keeps counting, expires, and is uploaded by the second run:
+		// the upload must carry the final counts
+		prog := "golang.org/x/tools/gopls"
+		s.Cfg.GOOS, s.Cfg.GOARCH, s.Cfg.GoVersion = []string{"linux"}, []string{"amd64"}, []string{"go1.22.1"}
+		s.Cfg.SampleRate = 0
+		s.Cfg.Programs = []*verifref.ProgramConfig{{Name: prog, Versions: []string{"v1.0.0"}, Counters: []verifref.CounterConfig{{Name: "editor/opens", Rate: 1}, {Name: "flag:{v,x}", Rate: 1}}}}
+		end := t1.Truncate(24 * time.Hour).Add(time.Duration(1+r.Intn(5)) * 24 * time.Hour)
+		f := s.Files[0]
+		f.Kind = "ok"
+		f.Build = verifref.Build{Program: prog, Version: "v1.0.0", GoVersion: "go1.22.1", GOOS: "linux", GOARCH: "amd64"}
+		f.End, f.Begin = end, end.Add(-time.Duration(2+r.Intn(5))*24*time.Hour)
+		f.Counts = map[string]uint64{"editor/opens": uint64(1 + r.Intn(9)), "flag:v": 2, "secret/" + s.Canary: 1}
+		f.setName(0)
+		s.Starts = []time.Time{t1, end.Add(time.Duration(1+r.Intn(100)) * time.Hour)}
+		s.Mode = []string{verifrt.Pick(r, []string{"on 2010-01-01", "local"}), "on 2010-01-01"}
+		s.Xs = []float64{0.5, 0.5}
+		s.Grow = map[int]int{1: 0}
+		s.PreLocal, s.PreUpload = map[string]string{}, map[string]string{}
+	}
 	// pre-existing reports for some weeks
 	for _, f := range s.Files {
 		if r.Intn(8) == 0 {
